@@ -43,8 +43,12 @@ SiteOf(pcv) ==
     [] pcv = "done"                     -> "done"
     [] OTHER                            -> pcv
 
+\* Go's RWMutex prefers writers: a reader arriving while a writer waits for the key blocks as well
+WriterWaits(k) == \E w \in waiting : \/ pc[w] = "qLock" /\ IsWrite(Kd(w)) /\ Ky(w) = k
+                                     \/ pc[w] = "mLock" /\ k \in good[w]
 Blocked(a) ==
   \/ pc[a] = "qLock" /\ ~LockFree(a)
+  \/ pc[a] = "qLock" /\ ~IsWrite(Kd(a)) /\ a \notin waiting /\ WriterWaits(Ky(a))
   \/ pc[a] = "mLock" /\ ~(\A k \in good[a] : wr[k] = None /\ rd[k] = {})
   \/ pc[a] = "rMu" /\ mu # None
 
